@@ -158,6 +158,13 @@ class Interp:
             b = self.lib.builtin(name)
             if b is not None:
                 return b
+            for sm in getattr(mod, 'star', []):
+                if self.repo.has_module(sm):
+                    pm = self.repo.module(sm)
+                    if name in pm.top:
+                        return self.resolve_global(pm, name)
+                else:
+                    return self.ext(f'{sm}.{name}')
             raise OutOfSubset(f'unresolved name {name} in {mod.name}')
         if isinstance(ent, (ast.FunctionDef, ast.AsyncFunctionDef)):
             return RepoFunc(qn, ent, mod)
